@@ -7,6 +7,11 @@ ALL = ["C%02d" % i for i in range(1, 21)]
 
 # id -> (level category, engine, technique, level text, level note, design ref)
 CLAIMED = {
+    "C16": ("model_checking", "S",
+            "stateless model checking of the real announce.Receiver built with the instrumentation overlay (mutex shim, scheduling points at every lock, channel operation and select): all interleavings, up to 2 (quick) / 3 (thorough) preemptions, of every set of 2-3 threads x 1-2 operations containing a Close (459 configurations quick); plus every operation sequence of length <=4/5 run one call per goroutine in a synctest bubble and compared at quiescence with a reference model (returned value / still blocked)",
+            "Every explored schedule is an execution of the real receiver (traces_validated_against_impl = executions); 'a call never returns' is decided by quiescence in the bubble (no enabled thread, caller parked on a lock whose predicate is false), not by a timeout; the reference model says which calls may wait and what each returns. The schedule and return-path dependence (which return path an earlier call took) is exactly what two scripted close tests cannot cover.",
+            "Receiver without pubsub (nil host); select statements try cases in source order; cooperative scheduling at synchronization operations only (data races are out of scope here).",
+            "DESIGN.md 6/C16"),
     "C04": ("fault_enumeration", "F",
             "fault enumeration over the real subscriber / sync client / publisher stack in a synctest bubble (virtual time): for each of 42 (quick) / 72 (thorough) modes {libp2p-HTTP discovery, plain HTTP} x {1,2 addresses} x {queried head, explicit head, announce-triggered} x {unsegmented, segments of 1, 2} x {fresh, partly synced}, every fault kind (5 HTTP statuses, connection closed, short body, corrupt / substituted / empty body, stalled response, caller cancellation, hook failure) at every request position of the fault-free run, singly (quick) and in pairs within an attempt and across attempt and retry (thorough), each followed by a fault-free retry on the same subscriber",
             "For every script the failed attempt must leave latest-synced unchanged, emit no success event, exactly one error event for announce-triggered syncs, a verifying store; the retry must succeed, end in the reference run's latest-synced value and stored set, re-request no verified block and report every block; masked faults must equal the reference run. Position-by-kind enumeration with a retry is what exposes sticky client fallback state that a single scripted missing block cannot.",
